@@ -21,6 +21,7 @@ import (
 	"github.com/google/martian/v3/verify"
 
 	// modifiers referenced by the generated JSON
+	_ "github.com/google/martian/v3/cookie"
 	_ "github.com/google/martian/v3/failure"
 	_ "github.com/google/martian/v3/fifo"
 	_ "github.com/google/martian/v3/header"
@@ -55,6 +56,13 @@ type Node struct {
 	Kind int
 	Kids []*Node
 	ID   int // preorder index, set by Number
+
+	// Extensions (see ext.go); the zero values give the original trees.
+	Var   int  // verifier: parameterisation; filter: kind of filter (FKQuery, FKHeader, ...)
+	Scope int  // "scope" of the JSON message: ScNone (absent), ScReq, ScRes, ScBoth, ScEmpty
+	Agg   bool // fifo.Group: aggregateErrors
+
+	ext bool // root only, set by Number: some node of the tree uses an extension
 }
 
 func Leaf(kind int) *Node       { return &Node{Kind: kind} }
@@ -65,7 +73,7 @@ func FilterTE(t, e *Node) *Node { return &Node{Kind: KFilterTE, Kids: []*Node{t,
 func (n *Node) IsLeaf() bool    { return n.Kind < NumLeafKinds }
 func (n *Node) isFilter() bool  { return n.Kind >= KFilterT }
 func (n *Node) clone() *Node {
-	c := &Node{Kind: n.Kind}
+	c := &Node{Kind: n.Kind, Var: n.Var, Scope: n.Scope, Agg: n.Agg}
 	for _, k := range n.Kids {
 		c.Kids = append(c.Kids, k.clone())
 	}
@@ -80,6 +88,9 @@ func (n *Node) Number() *Node {
 	rec = func(x *Node) {
 		x.ID = id
 		id++
+		if x.Var != 0 || x.Scope != 0 || x.Agg {
+			c.ext = true
+		}
 		for _, k := range x.Kids {
 			rec(k)
 		}
@@ -98,18 +109,22 @@ func (n *Node) Size() int {
 }
 
 func (n *Node) String() string {
+	name := KindNames[n.Kind] + n.extSuffix()
 	if n.IsLeaf() {
-		return KindNames[n.Kind]
+		return name
 	}
 	var ks []string
 	for _, k := range n.Kids {
 		ks = append(ks, k.String())
 	}
-	return KindNames[n.Kind] + "(" + strings.Join(ks, ",") + ")"
+	return name + "(" + strings.Join(ks, ",") + ")"
 }
 
 // JSON renders the martian configuration message of the tree.
 func (n *Node) JSON() string {
+	if n.Var != 0 || n.Scope != 0 || n.Agg {
+		return n.extJSON()
+	}
 	switch n.Kind {
 	case KStatus:
 		return `{"status.Verifier":{"statusCode":200}}`
@@ -271,6 +286,10 @@ type Msg struct {
 	Met uint8
 	API bool
 	Bad bool // API requests only: the query additionally carries a pair that net/url refuses to parse ("bad=1;2")
+
+	// Extensions (see ext.go); the zero values give the original messages.
+	Flip  uint32 // filters with an own response condition (header, cookie): bit i = the response takes the other branch of filter node i than the request
+	Shape uint8  // index into Shapes: concrete attributes that override what Met says (wrong value, several values, ...)
 }
 
 func (m Msg) met(kind int) bool { return m.Met&(1<<uint(kind)) != 0 }
@@ -294,6 +313,12 @@ func (m Msg) String() string {
 	}
 	if m.Bad {
 		s += " unparsable-query"
+	}
+	if m.Flip != 0 {
+		s += fmt.Sprintf(" response-flips:%b", m.Flip)
+	}
+	if m.Shape != 0 {
+		s += " shape:" + Shapes[m.Shape].Name
 	}
 	return s + "}"
 }
@@ -424,6 +449,9 @@ func Reached(t *Node, m Msg) []*Node {
 
 // Build constructs the request and the response of the message; id makes its URL unique.
 func (m Msg) Build(id int) (*http.Request, *http.Response) {
+	if m.Flip != 0 || m.Shape != 0 {
+		return m.BuildFor(nil, id)
+	}
 	host := "bad.example"
 	if m.met(KURL) {
 		host = "good.example"
@@ -502,6 +530,9 @@ type Rec struct {
 
 // Eval lists what message m (taken as a non-API request) makes the verifiers of the tree record.
 func Eval(t *Node, m Msg, id int) []Rec {
+	if t.ext || m.Flip != 0 || m.Shape != 0 || ForceConcrete {
+		return evalX(t, m, id)
+	}
 	var out []Rec
 	var rec func(x *Node)
 	rec = func(x *Node) {
@@ -562,7 +593,7 @@ type Model struct {
 func NewModel(t *Node) *Model {
 	m := &Model{Tree: t, Seen: map[int]int{}, PBHist: map[int]int{}}
 	for _, l := range t.Leaves() {
-		if l.Kind == KPingback {
+		if l.Kind == KPingback && t.Active(l.ID, SideReq) {
 			m.Seen[l.ID] = 0
 		}
 	}
@@ -918,8 +949,14 @@ type Exchange struct {
 
 // NewExchange builds the messages and links a context to the request, marking it as an API request if asked.
 func NewExchange(m Msg, id int) (x *Exchange, err error) {
+	return NewExchangeFor(nil, m, id)
+}
+
+// NewExchangeFor is NewExchange for a message of an extended tree (the carriers of the routing bits depend on
+// the kinds of the tree's filters).
+func NewExchangeFor(t *Node, m Msg, id int) (x *Exchange, err error) {
 	defer guard(&err)
-	req, res := m.Build(id)
+	req, res := m.BuildFor(t, id)
 	ctx, remove, err := martian.TestContext(req, nil, nil)
 	if err != nil {
 		return nil, err
@@ -936,6 +973,7 @@ func NewExchange(m Msg, id int) (x *Exchange, err error) {
 // requests come from separate pools because the API mark of a context cannot be taken back.
 type Pool struct {
 	reqs [2][]*http.Request
+	Tree *Node // tree the messages are built for (nil: original trees)
 }
 
 // Exchange returns the exchange of message m using the request object of the given slot.
@@ -956,7 +994,7 @@ func (p *Pool) Exchange(m Msg, id, slot int) (x *Exchange, err error) {
 		}
 		p.reqs[a] = append(p.reqs[a], req)
 	}
-	req, res := m.Build(id)
+	req, res := m.BuildFor(p.Tree, id)
 	r := p.reqs[a][slot]
 	*r = *req
 	res.Request = r
@@ -1012,6 +1050,23 @@ func (h *Harness) Reset() (code int, err error) {
 	rec := httptest.NewRecorder()
 	h.RH.ServeHTTP(rec, &http.Request{Method: "POST", URL: resetURL, Header: http.Header{}, Body: http.NoBody})
 	return rec.Code, nil
+}
+
+// QueryWith calls the verification handler with another method than GET; it returns the status code, the Allow
+// header and the body.
+func (h *Harness) QueryWith(method string) (code int, allow, body string, err error) {
+	defer guard(&err)
+	rec := httptest.NewRecorder()
+	h.VH.ServeHTTP(rec, &http.Request{Method: method, URL: verifyURL, Header: http.Header{}, Body: http.NoBody})
+	return rec.Code, rec.Header().Get("Allow"), rec.Body.String(), nil
+}
+
+// ResetWith calls the reset handler with another method than POST.
+func (h *Harness) ResetWith(method string) (code int, allow string, err error) {
+	defer guard(&err)
+	rec := httptest.NewRecorder()
+	h.RH.ServeHTTP(rec, &http.Request{Method: method, URL: resetURL, Header: http.Header{}, Body: http.NoBody})
+	return rec.Code, rec.Header().Get("Allow"), nil
 }
 
 // ---- concurrent scenarios (shared by the schedule exploration and the race pass) ----
@@ -1138,5 +1193,16 @@ func ConcScenarios(tier string) []Conc {
 	add(Conc{Name: "filterE(status)/1x1+query", Tree: FilterE(Leaf(KStatus)), Threads: one, Queries: 1, Heavy: true})
 	add(Conc{Name: "url/api+plain+query", Tree: Leaf(KURL), Threads: [][]Msg{{{API: true}}, {unmet}}, ReqOnly: true, Queries: 1, Heavy: true})
 	add(Conc{Name: "pingback/2x1req+query", Tree: Leaf(KPingback), Threads: [][]Msg{{seen}, {unmet}}, ReqOnly: true, Queries: 1, Heavy: true})
+
+	// ---- added by the audit: two connections record the FIRST failure of a verifier of every kind at the same
+	// time (only the failure verifier had such a scenario), all interleavings; thorough adds a racing query
+	for _, k := range []int{KMethod, KURL, KQuery, KHeader} {
+		add(Conc{Name: KindNames[k] + "/2x1req", Tree: Leaf(k), Threads: two, ReqOnly: true})
+		add(Conc{Name: KindNames[k] + "/2x1req+query", Tree: Leaf(k), Threads: two, ReqOnly: true, Queries: 1, Heavy: true})
+	}
+	add(Conc{Name: "status/2x1", Tree: Leaf(KStatus), Threads: two})
+	add(Conc{Name: "header/2x1", Tree: Leaf(KHeader), Threads: two, Preempt: pb})
+	add(Conc{Name: "pingback/2x1req", Tree: Leaf(KPingback), Threads: [][]Msg{{seen}, {seen}}, ReqOnly: true})
+	add(Conc{Name: "group(method,query)/2x1req", Tree: Group(Leaf(KMethod), Leaf(KQuery)), Threads: two, ReqOnly: true, Preempt: pb})
 	return out
 }
